@@ -122,7 +122,7 @@ impl Prop for C10 {
     }
     fn run_worker(&self, cx: &mut WorkerCtx) {
         let t = cx.tier;
-        cx.run_prop("resync", t.pick(400_000, 6_000_000), case_strategy(), run_case);
+        cx.run_prop("resync", t.pick(3_000_000, 30_000_000), case_strategy(), run_case);
     }
     fn replay(&self, _cx: &mut WorkerCtx, _variant: &str, case: &Value) -> Result<(), String> {
         let mut rec = CaseRec::default();
